@@ -135,9 +135,67 @@ def plan(tier, seed):
 
     phases = [{'name': 'depth-1-all-contexts', 'cases': cases1(), 'runner': 'run_nests', 'chunk': 60},
               {'name': 'depth-2-rotating-context', 'cases': cases2(), 'runner': 'run_nests', 'chunk': 60}]
+    # "... and the first argument's value otherwise": IFERROR around a first argument of every kind of value (blank cell,
+    # 0, empty text, FALSE, number, text, error values), reached through every kind of reference, plus an area
+    phases.append({'name': 'iferror-first-argument-kinds', 'cases': [{'v': i, 'w': j} for i in range(len(FIRST_VALUES))
+                                                                     for j in range(len(FIRST_VALUES))],
+                   'runner': 'run_first_arg', 'chunk': 8})
     if th:
         phases.append({'name': 'depth-3-rotating-context', 'cases': cases3(), 'runner': 'run_nests', 'chunk': 60})
     return phases
+
+
+FIRST_VALUES = [None, 0, '', False, 5, 'txt', '#N/A', '#DIV/0!', 0.0, True]
+FIRST_FORMS = {   # reader -> (formula, 'v' = value of S!W1 decides / 'w' = value of T!A9 / ...)
+    'A1': ('=IFERROR(W1,"fb")', 'v'), 'A2': ('=IFERROR(T!A9,"fb")', 'w'), 'A3': ('=IFERROR(IFERROR(W1,"a"),"b")', 'v2'),
+    'A4': ('=IFERROR(IF(TRUE,W1),"fb")', 'v'), 'A5': ('=IFERROR(INDEX(W1:W3,1),"fb")', 'v'), 'A6': ('=IFERROR($W$1,"fb")&"|"', 'v&'),
+    'A7': ('=IF(TRUE,IFERROR(W1,"fb"),"no")', 'v'), 'A8': ('=IFERROR(T!Z99,"fb")', 'blank'),
+    'A9': ('=SUM(IFERROR(Q1:Q2,5))', 'area'), 'A10': ('=IFS(TRUE,IFERROR(W1,"fb"))', 'v'),
+}
+FIRST_SCAFFOLD = [('S', dict({a: f for a, (f, _) in FIRST_FORMS.items()}, W2=1, W3=2, Q1=1, Q2=2)), ('T', {'B1': 1})]
+ERRS = ('#N/A', '#DIV/0!')
+
+
+def run_first_arg(cases, stats):
+    cls = S.get_class(FIRST_SCAFFOLD, stats=stats)
+    vio = []
+    readers = list(FIRST_FORMS)
+    for i, c in enumerate(cases):
+        v, w = FIRST_VALUES[c['v']], FIRST_VALUES[c['w']]
+        ov = [(a, x) for a, x in (('W1', v), (('T', 'A9'), w)) if x is not None]
+        outs = S.run(cls, ov, readers, stats)
+        for a, o in zip(readers, outs):
+            f, how = FIRST_FORMS[a]
+            x = {'v': v, 'v2': v, 'v&': v, 'w': w, 'blank': None, 'area': None}[how]
+            fb = 'a' if how == 'v2' else 'fb'      # the inner IFERROR already answers: its fallback is no error
+            stats['validated'] += 1
+            stats['out:' + S.out_label(o)] += 1
+            if how == 'area':
+                ok = o == ('VALUE', 3)
+                want = 3
+            elif x in ERRS:
+                stats['nontrivial'] += 1
+                want = fb + ('|' if how == 'v&' else '')
+                ok = o == ('VALUE', want)
+            elif how == 'v&':
+                # the text form of the value in front of the bar (a blank joins as nothing or - Excel's final 0 - as 0)
+                want = [R.text_form(x) + '|'] if x is not None else ['|', '0|']
+                ok = o[0] == 'VALUE' and o[1] in want
+            elif x is None:
+                stats['nontrivial'] += 1
+                want = 'blank (or 0), never the fallback'
+                ok = o[0] == 'VALUE' and (D.is_blank(o[1]) or (o[1] == 0 and not isinstance(o[1], bool)))
+            else:
+                if not x:
+                    stats['nontrivial'] += 1
+                want = x
+                ok = o[0] == 'VALUE' and not D.is_blank(o[1]) and type(o[1]) is type(x) and o[1] == x
+            if not ok:
+                vio.append({'i': i, 'desc': {'nest': ['IFERROR'], 'context': 'first-argument', 'form': f,
+                                             'first': 'blank' if x is None else ('error' if x in ERRS else type(x).__name__),
+                                             'outcome': 'VALUE_MISMATCH' if o[0] == 'VALUE' else o[0]},
+                            'expected': D.enc(want), 'observed': S.obs(o)})
+    return vio
 
 
 def features(nest):
